@@ -89,7 +89,7 @@ var c13Modes = []string{"noretry", "retry", "cluster", "sentinel"}
 // fault kinds used with the topology clients in the quick tier (the full list in thorough)
 var c13TopologyKinds = map[string]bool{"err-before": true, "drop-before": true, "down": true, "effect-err": true, "nil": true, "corrupt": true, "truncate": true}
 
-var c13Scenarios = []string{"login", "form-login", "request", "auth-only", "userinfo", "refresh", "refresh-norefreshtoken", "sign-out", "sign-out-post", "ready"}
+var c13Scenarios = []string{"login", "form-login", "request", "auth-only", "userinfo", "refresh", "refresh-norefreshtoken", "sign-out", "sign-out-post", "ready", "ready-head", "ready-ua"}
 
 func c13NewCell(t *testing.T, run *vfRun, w *vfWorld, htp string, n int) *c13Cell {
 	mr, err := miniredis.Run()
@@ -158,7 +158,7 @@ func (c *c13Cell) run(scn string, mode string, faults []c13Fault) *c13Outcome {
 			return out
 		}
 		login = l
-	case "form-login", "ready":
+	case "form-login", "ready", "ready-head", "ready-ua":
 	default:
 		if _, _, err := b.Login(p, id, "/"); err != nil {
 			out.Note = "rig: login failed: " + err.Error()
@@ -233,6 +233,10 @@ func (c *c13Cell) run(scn string, mode string, faults []c13Fault) *c13Outcome {
 		resp = b.Send(p, vfNewReq("POST", "/oauth2/sign_out").WithBody("application/x-www-form-urlencoded", []byte("rd=%2Fbye")))
 	case "ready":
 		resp = b.Get(p, "/ready")
+	case "ready-head": // probes come in more shapes than GET (round 8): HEAD, as load balancers send it
+		resp = b.Send(p, vfNewReq("HEAD", "/ready"))
+	case "ready-ua": // a kubelet-style probe: own User-Agent, Accept */*, query string
+		resp = b.Send(p, vfNewReq("GET", "/ready?probe=1", "User-Agent", "kube-probe/1.29", "Accept", "*/*"))
 	}
 	// heal
 	c.hub.SetHooks(nil, nil)
@@ -292,7 +296,7 @@ func (c *c13Cell) run(scn string, mode string, faults []c13Fault) *c13Outcome {
 		}
 	}
 	// liveness after the fault: the same browser can still use / re-establish a session
-	if scn != "ready" {
+	if !strings.HasPrefix(scn, "ready") {
 		r := b.Get(p, "/oauth2/userinfo")
 		out.After["same_browser_userinfo"] = r.Code
 	}
@@ -340,7 +344,7 @@ func c13Judge(run *vfRun, o *c13Outcome, faults []c13Fault, base []string) {
 			report("c13:signout-success-but-session-alive", "sign-out answered 302 although a pre-sign-out cookie still authenticates")
 		}
 	}
-	if o.Scenario == "ready" && o.Status == 200 && !c13OpsHave(o.Ops, "PING", true) {
+	if strings.HasPrefix(o.Scenario, "ready") && o.Status == 200 && !c13OpsHave(o.Ops, "PING", true) {
 		report("c13:ready-while-store-unreachable", "/ready answered 200 although no PING was answered")
 	}
 	if o.Retries {
@@ -504,7 +508,7 @@ func TestVerif_C13(t *testing.T) {
 			c13Judge(run, o, nil, o.Ops)
 			run.Sample(map[string]interface{}{"baseline": key, "ops": o.Ops, "status": o.Status, "served": o.Served})
 			ok := map[string]bool{"login": o.Status == 302, "form-login": o.Status == 302, "request": o.Served, "auth-only": o.Served, "userinfo": o.Served, "refresh": o.Served,
-				"refresh-norefreshtoken": o.Served, "sign-out": o.Status == 302, "sign-out-post": o.Status == 302, "ready": o.Status == 200}[scn]
+				"refresh-norefreshtoken": o.Served, "sign-out": o.Status == 302, "sign-out-post": o.Status == 302, "ready": o.Status == 200, "ready-head": o.Status == 200, "ready-ua": o.Status == 200}[scn]
 			if !ok || len(o.Ops) == 0 {
 				t.Fatalf("baseline %s does not behave as expected: %+v", key, o)
 			}
